@@ -22,6 +22,11 @@
 from .store import File, InvalidFileContents
 
 
+_INVALID_CONTROL_CHARACTERS = [
+    bytes([c]) for c in range(0x20) if c not in (0x09, 0x0A, 0x0D)
+] + [b"\x7f"]
+
+
 class VCardFile(File):
     content_type = "text/vcard"
 
@@ -40,6 +45,15 @@ class VCardFile(File):
                 self.content,
                 "Missing header and trailer lines",
             )
+        for ch in _INVALID_CONTROL_CHARACTERS:
+            if ch in c:
+                # not allowed by RFC 6350 (section 3.3), and can not be
+                # carried in the XML of a report
+                raise InvalidFileContents(
+                    self.content_type,
+                    self.content,
+                    f"Invalid control character {ch!r}",
+                )
         try:
             c.decode("utf-8")
         except UnicodeDecodeError as exc:
